@@ -972,15 +972,18 @@ def _dt_utctimetuple(d):
 
 @method_model('datetime', 'timetuple')
 def _dt_timetuple(d):
-    return SAbs('timetuple', d.secs, tuple)
+    # the wall-clock fields of the value in its own time zone: those of the instant secs + utcoffset
+    return SAbs('timetuple', V.simp(d.secs + d.off), tuple)
 
 
 @model(calendar.timegm)
 def _timegm(tt):
-    if isinstance(tt, SAbs) and tt.kind == 'utctimetuple':
+    if isinstance(tt, SAbs) and tt.kind in ('utctimetuple', 'timetuple'):
+        # timegm reads the fields as UTC: for utctimetuple() that is the instant itself, for timetuple() the instant
+        # shifted by the value's UTC offset
         return wrap_int(tt.term)
     if isinstance(tt, SAbs):
-        raise E.Unsupported('timegm of a local time tuple')
+        raise E.Unsupported('timegm of an unknown time tuple')
     return I.native(calendar.timegm, [tt], {})
 
 
